@@ -8,7 +8,7 @@
     expansion of every corpus declaration on every run; the theorems say what a successful check
     means for all raw values, all arguments, all in-range indices and both build profiles
     ([c] ranges over overflow-checks on/off). *)
-From BB Require Import Bits Expr Sym Spec Validate Parse ParseCorrect Enum Prog History Builder Surface DebugFmt Gen GenCorrect BuilderValid Tokens.
+From BB Require Import Bits Expr Sym Spec Validate Parse ParseCorrect Enum Prog History Builder Surface DebugFmt Gen GenCorrect BuilderValid Tokens EndToEnd.
 Open Scope N_scope.
 
 (** ** C01 — getter returns exactly the declared bits *)
@@ -208,11 +208,7 @@ Proof. exact obligations_setters_ok. Qed.
 Theorem C06_storage_minimal : forall W, 1 <= W <= 128 ->
   In (storage W) [8; 16; 32; 64; 128] /\ W <= storage W /\
   forall s, In s [8; 16; 32; 64; 128] -> W <= s -> storage W <= s.
-Proof.
-  intros W HW. unfold storage.
-  destruct (N.leb_spec W 8); [|destruct (N.leb_spec W 16); [|destruct (N.leb_spec W 32); [|destruct (N.leb_spec W 64)]]];
-    (split; [cbn; tauto|split; [lia|]]); intros s Hs Hle; cbn in Hs; lia.
-Qed.
+Proof. exact storage_minimal. Qed.
 
 (** ** C13 — builder()...build() is the default with every field written *)
 
@@ -405,3 +401,20 @@ Theorem C19_standard_struct_format : forall n f fs,
   render_compact (DStruct n (f :: fs))
   = (n ++ " { " ++ join ", " (map (fun av => fst av ++ ": " ++ render_compact (snd av)) (f :: fs)) ++ " }")%string.
 Proof. exact render_compact_struct. Qed.
+
+(** ** End to end over the model of the macro: whatever the model of [parse_field] accepts, the model of
+       [codegen.rs] implements as the abstract register *)
+Theorem model_macro_end_to_end : forall d,
+  accept_decl d = true ->
+  Forall (fun f => nodup_bits (ranges f) = true /\ count f < 2 ^ 64) (d_fields d) ->
+  (* every getter *)
+  (forall c f i raw, In f (d_fields d) -> i < count f -> raw < 2 ^ d_W d ->
+     eval c (mk_env (d_W d) raw i (VBool false)) (gen_getter (storage (d_W d)) f)
+     = Ok (present (f_ty f) (spec_get f i raw)))
+  (* every finite history of writes *)
+  /\ (forall c ops raw, Forall (hop_ok d) ops -> raw < 2 ^ d_W d ->
+        model_run c d raw ops = Ok (run (map hop_wop ops) raw) /\ run (map hop_wop ops) raw < 2 ^ d_W d)
+  (* the raw value in and out *)
+  /\ (forall c raw, raw < 2 ^ d_W d ->
+        eval c (mk_env (d_W d) raw 0 (VBool false)) (gen_raw_value (storage (d_W d)) (d_W d)) = Ok (VInt (base_ty (d_W d)) raw)).
+Proof. exact macro_model_end_to_end. Qed.
